@@ -1,11 +1,20 @@
 #!/bin/bash
 # Build the framework offline from files on disk. Safe to re-run.
+# Each registered check's binary is built exactly the way ./check builds it (per package, so cargo
+# features are not unified across harness crates), then the pre-steps are run once.
 set -e
 ROOT="$(cd "$(dirname "${BASH_SOURCE[0]}")" && pwd)"
 export CARGO_NET_OFFLINE=true
+export CARGO_TARGET_DIR="${VERIF_TARGET:-$ROOT/target}"
 cd "$ROOT/harness"
-mkdir -p "$ROOT/target" "$ROOT/evidence"
-bash "$ROOT/pre/dict.sh"
-cargo build --release --offline --workspace 2>&1 | tail -3
-for p in "$ROOT"/pre/setup-*.sh; do [ -e "$p" ] && bash "$p"; done
+mkdir -p "$CARGO_TARGET_DIR" "$ROOT/target" "$ROOT/evidence"
+for pkg in $(cut -f2 "$ROOT/checks.tsv" | sort -u); do
+  echo "== building $pkg"
+  cargo build --release --offline -p "$pkg" --bins 2>&1 | tail -2
+done
+for pre in $(cut -f4 "$ROOT/checks.tsv" | sort -u); do
+  [ "$pre" = "-" ] || [ -z "$pre" ] && continue
+  echo "== pre-step $pre"
+  bash "$ROOT/pre/$pre" quick >/dev/null 2>&1 || { echo "pre-step $pre failed" >&2; exit 1; }
+done
 echo "setup done"
